@@ -6,6 +6,7 @@ import (
 	"fmt"
 	"go/constant"
 	"go/token"
+	"go/types"
 	"sort"
 	"strings"
 
@@ -550,6 +551,110 @@ func checkExecvedFlag(c *Check, handle, handleTrap *ssa.Function) {
 	}
 	c.Cond(n >= 1, "5/after-exec-only", "ptracer:execved-writers", p.Pos(handle.Pos()), "writer of the exec flag found", "no writer of the exec flag found")
 	c.Expect("5/after-exec-only", 3)
+
+	// ---------- 8: verdicts of a multi-path call are joined, the most severe wins ----------
+	checkCombineJoin(c)
+
+	// ---------- 9: the decision is made from the state of this stop only ----------
+	checkNoSharedState(c, "9/no-shared-state", func(path string) bool {
+		return strings.HasSuffix(path, "/ptracer") || strings.HasSuffix(path, "/runner/ptrace") || strings.HasSuffix(path, "/runner/ptrace/filehandler")
+	}, 2)
+}
+
+// checkCombineJoin: every function of runner/ptrace that folds a list of trace
+// actions into one (variadic or slice parameter of the action type, result of
+// the action type) is evaluated on every list of length 1..3 over
+// {allow, ban, kill}: the result must be kill if any element is kill, else ban
+// if any is ban, else allow. The constants are read by name from the current
+// tree, so renumbering them is followed.
+func checkCombineJoin(c *Check) {
+	p := c.P
+	act := func(n string) int64 { return p.MustConst(repoModule+"/ptracer", n) }
+	vals := map[string]int64{"allow": act("TraceAllow"), "ban": act("TraceBan"), "kill": act("TraceKill")}
+	names := []string{"allow", "ban", "kill"}
+	sev := map[string]int{"allow": 0, "ban": 1, "kill": 2}
+	nameOf := func(v int64) string {
+		for n, x := range vals {
+			if x == v {
+				return n
+			}
+		}
+		return fmt.Sprintf("%d", v)
+	}
+	found := 0
+	for _, fn := range p.PkgFuncs("runner/ptrace") {
+		sig := fn.Signature
+		if sig.Recv() != nil || sig.Params().Len() != 1 || sig.Results().Len() != 1 || fn.Parent() != nil {
+			continue
+		}
+		sl, ok := sig.Params().At(0).Type().(*types.Slice)
+		if !ok || !strings.HasSuffix(sl.Elem().String(), "ptracer.TraceAction") || !strings.HasSuffix(sig.Results().At(0).Type().String(), "ptracer.TraceAction") {
+			continue
+		}
+		found++
+		param := fn.Params[0]
+		var lists [][]string
+		var gen func(cur []string, n int)
+		gen = func(cur []string, n int) {
+			if len(cur) == n {
+				lists = append(lists, append([]string(nil), cur...))
+				return
+			}
+			for _, x := range names {
+				gen(append(cur, x), n)
+			}
+		}
+		for n := 1; n <= 3; n++ {
+			gen(nil, n)
+		}
+		bad := ""
+		nOK := 0
+		for _, l := range lists {
+			want := "allow"
+			for _, x := range l {
+				if sev[x] > sev[want] {
+					want = x
+				}
+			}
+			var outs []string
+			w := &walker{fn: fn, MaxVisits: len(l) + 3}
+			w.Seed = func(w *walker, st *wstate, v ssa.Value) *absVal {
+				if v == ssa.Value(param) {
+					return &absVal{k: avPtr, key: "S:list"}
+				}
+				if call, ok := v.(*ssa.Call); ok {
+					if b, isB := call.Call.Value.(*ssa.Builtin); isB && b.Name() == "len" && call.Call.Args[0] == ssa.Value(param) {
+						return avInt(int64(len(l)))
+					}
+				}
+				return nil
+			}
+			w.Init = func(w *walker, st *wstate) {
+				for i, x := range l {
+					st.mem[fmt.Sprintf("S:list[%d]", i)] = avInt(vals[x])
+				}
+			}
+			w.OnReturn = func(w *walker, st *wstate, ret *ssa.Return, rs []*absVal) {
+				if rs[0].k == avConst {
+					if v, isInt := constant.Int64Val(rs[0].c); isInt {
+						outs = append(outs, nameOf(v))
+						return
+					}
+				}
+				outs = append(outs, rs[0].String())
+			}
+			w.Run()
+			if len(outs) == 1 && outs[0] == want {
+				nOK++
+			} else if bad == "" {
+				bad = fmt.Sprintf("(%s) ⇒ %v, want %s", strings.Join(l, ", "), outs, want)
+			}
+		}
+		c.Cond(bad == "", "8/combine-join", "runner/ptrace."+fn.Name(), p.Pos(fn.Pos()), fmt.Sprintf("the most severe verdict wins on all %d lists of length 1..3", nOK),
+			"the verdicts of the paths of one call are not joined by severity: "+bad+" (a banned or killed path of a two-path call such as rename/link is let through)")
+	}
+	c.Cond(found >= 1, "8/combine-join", "runner/ptrace:combiner", "runner/ptrace/", "combiner of trace actions found", "no function folding a list of trace actions found (two-path calls need one)")
+	c.Expect("8/combine-join", 2)
 }
 
 func constantString(s string) constant.Value { return constant.MakeString(s) }
